@@ -40,7 +40,7 @@ RULE = ('plan = history of 8-24 steps by 2 identities: object creation '
 PROBES = ['exception_records', 'disk_error_during_commit', 'decode_failure',
           'auth_failure', 'response_too_large', 'general_failure',
           'client_library_ops', 'server_generated_canary',
-          'password_credential', 'records_scanned',
+          'password_credential', 'password_not_utf8', 'records_scanned',
           'server_front_end_runs', 'server_log_lines',
           'client_from_configuration']
 REAL_VS_STUB = {
@@ -113,6 +113,11 @@ def generate(rng, tier, index):
             st = {'actor': a, 'ver': list(ver), 'items': [op]}
             if r.random() < 0.3:
                 st['cred'] = ['user-%d' % a, 'pw-' + ctx.rbytes(8)]
+                if r.random() < 0.25:
+                    # a password that is not valid UTF-8 (one damaged byte,
+                    # a Latin-1 character): the request cannot be decoded
+                    st['cred'][1] += r.choice([u'\udcfa', u'\udce9x',
+                                               u'\udcc3'])
                 if r.random() < 0.3 and ver >= (1, 1):
                     st['cred'] = [{'serial': 'sn-1',
                                    'password': 'pw-' + ctx.rbytes(8),
@@ -408,6 +413,12 @@ def execute(plan):
                             else c_[1]
                         if pw_:
                             passwords.add(pw_)
+                            clean = pw_.encode(
+                                'utf-8', 'surrogateescape').decode(
+                                    'ascii', 'ignore')
+                            if clean != pw_ and len(clean) >= 8:
+                                passwords.add(clean)
+                                probes['password_not_utf8'] += 1
                     probes['password_credential'] += 1
                 disk = st.get('disk')
                 if disk:
